@@ -37,6 +37,8 @@ class Cfg:
         self.assumptions = kw["assumptions"]
         self.variants = kw.get("variants", [dict()])  # e.g. build-tag variants; each dict(tags=, env=, overlay=)
         self.timeout = kw.get("timeout", 900)
+        # op lines that carry the implementation's own observation to a model-independent judge are judged even after an earlier difference
+        self.always_judge = tuple(kw.get("always_judge", ("end",)))
         self.search_n = kw.get("search_n", self.quick_n * 10)
         self.design_ref = kw.get("design_ref", "")
         self.technique = kw.get("technique", "")
@@ -150,7 +152,7 @@ def compare_shard(cfg, ops_p, impl_p, model_p, oc, tag):
             oc.tagcount[t] = oc.tagcount.get(t, 0) + 1
         k = iout.split(" ")[0]
         oc.outkinds[k] = oc.outkinds.get(k, 0) + 1
-        if case_failed and not ops[i].startswith("end"):
+        if case_failed and not ops[i].startswith(cfg.always_judge):
             continue
         if case_failed:
             # the closing judgement of a case looks at the implementation's own final observation and does
